@@ -18,10 +18,6 @@ FORBIDDEN_METHODS = {"unprotect", "remove", "rm", "rmdir", "rmtree", "unlink", "
 
 
 def check(ck: Checker) -> None:
-    from . import round4 as _r4
-
-    _r4.failures_always_raised(ck, "C10.state")
-    _r4.relink_skip_only_dirs(ck, "C10.linkkind")
     ck.decided = [
         "C10.cacheimmutable: a cache object path (cache.oid_to_path(...)) flows only into link sources, protect and read-only queries - never into removal, unprotect, chmod or a copy destination",
         "C10.reprotect: after relinking, the cache object is protected again on every normal path",
@@ -44,6 +40,11 @@ def check(ck: Checker) -> None:
     classes = [c for c in mod.classes.values()] + [prog.cls("hashfile.db.local", "LocalHashFileDB"), prog.cls("hashfile.db", "HashFileDB")]
     n = check_class_level_state(ck, "C10.memo", classes, "a later checkout in the same process skips work the earlier one recorded (e.g. parent directories believed to exist), so files are not restored")
     ck.floor("C10.memo", n, 3, "classes examined for shared mutable state")
+    from . import round4 as _r4
+
+    _r4.failures_always_raised(ck, "C10.state")
+    _r4.relink_skip_only_dirs(ck, "C10.linkkind")
+
 
 
 def _taint(ck: Checker, slice_: List[Func]) -> None:
